@@ -940,7 +940,11 @@ func (c *EvalCtx) call(n *Node) Val {
 			specErr(n, "new_decl: name expected")
 		}
 		dt := c.ex.w.namedType("pkg/codegen", "TypeDecl")
-		r := c.st.alloc(mkStruct(dt, map[string]Val{"Name": nmT}))
+		declFields := map[string]Val{"Name": nmT}
+		if len(n.Kids) > 1 { // new_decl("Name", schemaNode): the declaration made for that schema node
+			declFields["SchemaType"] = arg(1)
+		}
+		r := c.st.alloc(mkStruct(dt, declFields))
 		delete(c.st.Fresh, r.Cell)
 		c.st.CellTypes[r.Cell] = dt
 		return r
